@@ -1006,6 +1006,8 @@ class SoftwareSwitchBase (object):
     if req.port_no == OFPP_NONE:
       return list(self.port_stats.values())
     else:
+      if req.port_no not in self.port_stats:
+        return [] # No such port -- reply with no entries
       return self.port_stats[req.port_no]
 
   def _stats_queue (self, ofp, connection):
